@@ -8,7 +8,8 @@ From Coq Require Import NArith List Bool String.
 Import ListNotations.
 From TP Require Import Base.PyVal Schema.PyLiteral Schema.PyLiteralProofs Schema.CodeGen
      Schema.CodeGenProofs Gen.EmitSites Schema.ModuleGen Schema.ModuleGenProofs Gen.ModuleLayout
-     Schema.ModuleLayoutProofs.
+     Schema.ModuleLayoutProofs Schema.BackRequired Schema.BackRequiredProofs.
+From Coq Require Import Permutation.
 Local Open Scope N_scope.
 
 (* The full statement (lexical part): whatever the schema, the generator produces source, and that
@@ -198,6 +199,30 @@ Print Assumptions C09_module_layout.
 Print Assumptions C09_module_executes.
 Print Assumptions C09_module_total.
 
+(* ------------------------------------------------------------------ the required list, there and back
+   (the statement's "up to ... required-list order"): the generator takes defaulted properties out of
+   _required, structure_to_schema appends them again *)
+Theorem C09_required_roundtrip : forall req props,
+    NoDup req -> (forall x, In x (defaulted props) -> In x req) ->
+    exists r, final_required (Some req) props = Some (Some r) /\
+              Permutation (back_required r props) req.
+Proof. exact required_roundtrip. Qed.
+
+Theorem C09_required_roundtrip_only_if : forall req props r x,
+    NoDup req -> final_required (Some req) props = Some (Some r) ->
+    In x (defaulted props) -> ~ In x req ->
+    In x (back_required r props) /\ ~ Permutation (back_required r props) req.
+Proof. exact required_roundtrip_only_if. Qed.
+
+Theorem C09_no_required_all_required : forall props,
+    defaulted props = [] ->
+    final_required None props = Some None /\ back_required (map fst props) props = map fst props.
+Proof. exact no_required_all_required. Qed.
+
+Print Assumptions C09_required_roundtrip.
+Print Assumptions C09_required_roundtrip_only_if.
+Print Assumptions C09_no_required_all_required.
+
 (* ------------------------------------------------------------------ refutations of the full statement *)
 
 Definition all_printable (c : N) : bool := true.
@@ -321,3 +346,13 @@ Example C09_module_nonvacuous :
     names_ok [] (filter (keep_class (keep_only [s2p "B"])) [def_A; def_B] ++ [main_M]) = false /\
     names_ok [] (filter (keep_class (keep_only [s2p "A"])) [def_A; def_B] ++ [main_M]) = false.
 Proof. eexists. split; [reflexivity|]. vm_compute. repeat split; reflexivity. Qed.
+
+Example C09_required_nonvacuous :
+  let props := [(s2p "a", FString [] None (Some (DScalar (LStr (s2p "x"))))); (s2p "b", FBoolean None);
+                (s2p "c", FNumeric (s2p "Integer") [] (Some (DScalar (LRaw (s2p "3")))))] in
+  defaulted props = [s2p "a"; s2p "c"] /\
+  final_required (Some [s2p "c"; s2p "b"; s2p "a"]) props = Some (Some [s2p "b"]) /\
+  back_required [s2p "b"] props = [s2p "b"; s2p "a"; s2p "c"] /\
+  (* a defaulted property that is not listed comes back listed *)
+  final_required (Some [s2p "b"]) props = Some (Some [s2p "b"]).
+Proof. vm_compute. repeat split; reflexivity. Qed.
